@@ -808,6 +808,17 @@ impl endpoint::Session for Session {
         }
     }
 
+    fn on_incoming_transfer_frame(&mut self) {
+        // Upon receiving a transfer, the receiving endpoint will increment the next-incoming-id to
+        // match the implicit transfer-id of the incoming transfer plus one, as well as decrementing the
+        // remote-outgoing-window, and MAY (depending on policy) decrement its incoming-window.
+        self.next_incoming_id = self.next_incoming_id.wrapping_add(1);
+        self.remote_outgoing_window = self.remote_outgoing_window.saturating_sub(1);
+        self.need_flow_count = self.need_flow_count.saturating_add(1);
+
+        // TODO: allow user to define whether the incoming window should be decremented
+    }
+
     /// Handle an incoming transfer.
     ///
     /// Always returns `Ok(None)`: settlement of non-transactional deliveries is
@@ -820,15 +831,6 @@ impl endpoint::Session for Session {
         transfer: Transfer,
         payload: Payload,
     ) -> Result<Option<Disposition>, Self::Error> {
-        // Upon receiving a transfer, the receiving endpoint will increment the next-incoming-id to
-        // match the implicit transfer-id of the incoming transfer plus one, as well as decrementing the
-        // remote-outgoing-window, and MAY (depending on policy) decrement its incoming-window.
-        self.next_incoming_id = self.next_incoming_id.wrapping_add(1);
-        self.remote_outgoing_window = self.remote_outgoing_window.saturating_sub(1);
-        self.need_flow_count = self.need_flow_count.saturating_add(1);
-
-        // TODO: allow user to define whether the incoming window should be decremented
-
         let input_handle = InputHandle::from(transfer.handle.clone());
         match self.link_by_input_handle.get_mut(&input_handle) {
             Some(link_relay) => {
